@@ -6,17 +6,49 @@
    (recorded as fixed in known_findings.json; the second one made the repository's own
    test_hard_link_update_both_files_same_content hang now and then).
 
-   Proved for link groups of up to 3 concurrent workers, for EVERY schedule of any length, WITH failing operations at
-   every fallible point and WITH preemption between reading the map and registering for the wake-up (multi-thread
-   runtime): finite reachable sets enumerated by the kernel, lifted to all schedules by a closure lemma. *)
+   Proved for link groups of ANY number of concurrent workers, for EVERY schedule of any length, WITH failing operations
+   at every fallible point, with and without preemption between reading the map and registering for the wake-up
+   (multi-thread / single-thread runtime): an inductive invariant of the reachable states (Proofs/Hardlink_unbounded.v)
+   gives deadlock-freedom and the link structure; a measure that every step decreases gives termination with an explicit
+   bound.  The earlier bounded statements (reachable sets of up to 3 workers enumerated by the kernel) are kept as an
+   independent cross-check of the model. *)
 From Coq Require Import List Bool Arith Lia.
 From SyModel Require Import Hardlink.
-From SyProofs Require Import Hardlink_proofs.
+From SyProofs Require Import Hardlink_proofs Hardlink_unbounded.
 Import ListNotations.
 
-(* never stuck: in every reachable state either all workers have returned or some worker can move *)
+(* never stuck: in every reachable state either all workers have returned or some worker can move -- any number of workers *)
+Theorem C13_no_deadlock : forall fused n sched, deadlocked fused true (run_sched fused true (init n) sched) = false.
+Proof. exact no_deadlock_any. Qed.
+Print Assumptions C13_no_deadlock.
+
+(* whenever all workers have returned: the worker recorded as owner copied the file, every other successful worker
+   hard-linked to the owner's destination (one inode), failed workers created nothing, and if no copy succeeded nobody
+   reports success -- any number of workers *)
+Theorem C13_structure : forall fused n sched, structure_ok (run_sched fused true (init n) sched) = true.
+Proof. exact structure_any. Qed.
+Print Assumptions C13_structure.
+
+(* the coordination terminates: whatever the schedule -- a worker that cannot move is simply not scheduled -- a group of n
+   workers takes at most 15 n^2 + 4 n steps altogether (every step decreases a measure); with C13_no_deadlock: every
+   maximal run is finite and ends with all workers returned *)
+Theorem C13_terminates : forall fused n sched, steps_taken fused true (init n) sched <= 15 * n * n + 4 * n.
+Proof. exact steps_bounded_init. Qed.
+Print Assumptions C13_terminates.
+
+Theorem C13_every_step_decreases : forall fused s i f s', step fused true s i f = Some s' -> measure s' < measure s.
+Proof. exact step_decreases. Qed.
+Print Assumptions C13_every_step_decreases.
+
+(* the invariant itself, for the record: one owner at a time and only while the inode is in progress; a waiter that has not
+   been woken still has somebody who will wake it; links only to the recorded owner *)
+Theorem C13_invariant : forall fused n sched, Inv (run_sched fused true (init n) sched).
+Proof. exact reachable_inv. Qed.
+Print Assumptions C13_invariant.
+
+(* cross-check by enumeration for up to 3 workers *)
 Theorem C13_no_deadlock_bounded : forall n sched,
-  In n [1; 2; 3] -> deadlocked false (run_sched false (init n) sched) = false.
+  In n [1; 2; 3] -> deadlocked false true (run_sched false true (init n) sched) = false.
 Proof. exact no_deadlock_bounded. Qed.
 Print Assumptions C13_no_deadlock_bounded.
 
@@ -24,18 +56,40 @@ Print Assumptions C13_no_deadlock_bounded.
    hard-linked to the owner's destination (one inode), failed workers created nothing, and if no copy succeeded nobody
    reports success *)
 Theorem C13_structure_bounded : forall n sched,
-  In n [1; 2; 3] -> structure_ok (run_sched false (init n) sched) = true.
+  In n [1; 2; 3] -> structure_ok (run_sched false true (init n) sched) = true.
 Proof. exact structure_bounded. Qed.
 Print Assumptions C13_structure_bounded.
 
-(* the two schedules that dead-locked the pinned code now run to completion *)
+(* Before the third repair a waiter that registered with a notice that had ALREADY fired -- its owner failed and gave the
+   inode up while the waiter sat between reading the map and registering -- still went to sleep when another worker had
+   claimed the inode meanwhile, and nobody would ever wake it (`fix: a hard-link waiter only waits on the notice of the copy
+   that is in progress now`, recorded as fixed in known_findings.json): worker 0 claims and fails, worker 1 reads the map in
+   between, worker 2 claims; 1 registers late, sees "in progress", waits for notice 0 for ever *)
+Definition stale_notice_schedule : list (nat * bool) :=
+  [(0,false);(0,false);(1,false);(0,true);(0,false);(0,false);(2,false);(2,false);(1,false);(1,false);(2,false);(2,false);(2,false)].
+Theorem C13_stale_notice_refuted :
+  let s := run_sched false false (init 3) stale_notice_schedule in
+  deadlocked false false s = true /\ s_pcs s = [PErrOwner; PWait 0 true; POkOwner].
+Proof. vm_compute. split; reflexivity. Qed.
+Example ex_stale_notice_now_completes :
+  let s := run_sched false true (init 3) (stale_notice_schedule ++ [(1,false);(1,false);(1,false);(1,false)]) in
+  all_terminal s = true /\ s_pcs s = [PErrOwner; POkLinked 2; POkOwner].
+Proof. vm_compute. split; reflexivity. Qed.
+
+(* the two schedules that dead-locked the pinned code run to completion *)
 Example ex_owner_failure_recovers :
-  let s := run_sched false (init 2) [(0,false);(0,false);(1,false);(1,false);(1,false);(1,false);(0,true);(0,false);(0,false);
+  let s := run_sched false true (init 2) [(0,false);(0,false);(1,false);(1,false);(1,false);(1,false);(0,true);(0,false);(0,false);
                                      (1,false);(1,false);(1,false);(1,false);(1,false);(1,false)] in
-  all_terminal s = true /\ s_pcs s = [PErr; POkOwner].
+  all_terminal s = true /\ s_pcs s = [PErrOwner; POkOwner].
 Proof. vm_compute. split; reflexivity. Qed.
 
 Example ex_gap_is_harmless :
-  let s := run_sched false (init 2) [(0,false);(0,false);(1,false);(0,false);(0,false);(0,false);(1,false);(1,false);(1,false);(1,false)] in
+  let s := run_sched false true (init 2) [(0,false);(0,false);(1,false);(0,false);(0,false);(0,false);(1,false);(1,false);(1,false);(1,false)] in
   all_terminal s = true /\ s_pcs s = [POkOwner; POkLinked 0].
 Proof. vm_compute. split; reflexivity. Qed.
+
+Example ex_five_workers_with_failures :
+  let sched := flat_map (fun k => [(k mod 5, Nat.eqb (k mod 7) 3)]) (seq 0 400) in
+  let s := run_sched false true (init 5) sched in
+  all_terminal s = true /\ structure_ok s = true /\ steps_taken false true (init 5) sched <= 15 * 5 * 5 + 4 * 5.
+Proof. vm_compute. repeat split. repeat constructor. Qed.
